@@ -77,6 +77,28 @@ def _subst(e: T.Any, env: Env, params: T.Dict[str, ast.AST], skip: T.FrozenSet[s
     return e.__class__(**vals)
 
 
+def _beta(e: ast.AST) -> ast.AST:
+    """`(lambda p, q: BODY)(a, b)` -> BODY[p:=a, q:=b]: a function-valued local that a path applies reads like the expression written in place
+    (round 13).  Only plain positional parameters; left alone when an inner binder of BODY would capture a name of an argument."""
+    if not any(isinstance(n, ast.Call) and isinstance(n.func, ast.Lambda) for n in ast.walk(e)):
+        return e
+
+    class B(ast.NodeTransformer):
+        def visit_Call(self, c: ast.Call) -> ast.AST:
+            self.generic_visit(c)
+            f = c.func
+            if not isinstance(f, ast.Lambda) or c.keywords or any(isinstance(a, ast.Starred) for a in c.args):
+                return c
+            a = f.args
+            if a.vararg or a.kwarg or a.kwonlyargs or a.posonlyargs or a.defaults or len(a.args) != len(c.args):
+                return c
+            free = {n.id for x in c.args for n in ast.walk(x) if isinstance(n, ast.Name)}
+            if any(isinstance(n, _BINDERS) and _bound(n) & free for n in ast.walk(f.body)):
+                return c
+            return T.cast(ast.AST, _subst(f.body, {p.arg: x for p, x in zip(a.args, c.args)}, {}, frozenset()))
+    return T.cast(ast.AST, B().visit(copy.deepcopy(e)))
+
+
 def each(it: ast.AST) -> ast.AST:
     return ast.Call(func=ast.Name(id='each', ctx=ast.Load()), args=[it], keywords=[])
 
@@ -103,7 +125,7 @@ class SymPath:
 
     # -- environment -----------------------------------------------------
     def _sym(self, e: ast.AST, env: Env) -> ast.AST:
-        return T.cast(ast.AST, _subst(e, env, self.params, frozenset()))
+        return _beta(T.cast(ast.AST, _subst(e, env, self.params, frozenset())))
 
     def _bind(self, env: Env, target: ast.AST, value: ast.AST) -> None:
         """value is already symbolic."""
